@@ -82,7 +82,7 @@ class Check:
     def prove(self, prop_module, audit_file, extra_targets=()):
         """build the property's theorem module (re-checking it against the regenerated definitions)
         and audit the axioms of every theorem in it"""
-        ok, txt = self.lake_build([prop_module] + list(extra_targets))
+        ok, txt = self.lake_build([prop_module, "ZeepVerif.AuditLib"] + list(extra_targets))
         src = os.path.join(LEAN, prop_module.replace(".", "/") + ".lean")
         n_thm_src = 0
         n_ex = 0
